@@ -437,6 +437,25 @@ def trace(body, op, passthrough_extra=(), through_calls=True, _depth=0, _tr=None
         tr.steps.append(("cast", rv["cast"], rv["from_ty"], rv["ty"]))
         return trace(body, rv["op"], passthrough_extra, through_calls, _depth + 1, tr)
     if k == "aggregate":
+        # a pending field projection selects one operand of a tuple / struct / variant aggregate
+        st = tr.steps
+        idx = None
+        npop = 0
+        if st and st[-1][0] == "field":
+            name, npop = st[-1][1], 1
+        elif len(st) >= 2 and st[-1][0] == "downcast" and st[-2][0] == "field" and rv.get("variant") == st[-1][1]:
+            name, npop = st[-2][1], 2
+        else:
+            name = None
+        if name is not None:
+            if rv["agg"] == "tuple" and name.isdigit() and int(name) < len(rv["ops"]):
+                idx = int(name)
+            elif rv["agg"] == "adt" and name in rv.get("fields", []):
+                idx = rv["fields"].index(name)
+        if idx is not None:
+            del st[-npop:]
+            st.append(("agg_field", name))
+            return trace(body, rv["ops"][idx], passthrough_extra, through_calls, _depth + 1, tr)
         tr.origin = ("agg", payload, bb)
         return tr
     if k == "discr":
